@@ -317,6 +317,33 @@ fn scenarios(rng: &mut Rng) -> Vec<Scenario> {
         p.raw(d, "other.gom", &format!("package {}\n\nfn g(x: int32) -> int32 {{ x }}\n", p3));
         p.file("Main", "main.gom", &[d], &format!("fn main() {{\n    let _ = string_println(int32_to_string({}::f(1)));\n    ()\n}}\n", d));
         out.push(Scenario { family: "package-declaration-mismatch-second-file", proj: p, expect: Expect::Reject });
+        // the stray file declares a name that means something elsewhere in the project: Main (also what a file without a
+        // package line belongs to), an existing sibling package, or nothing at all; it sorts before or after the good
+        // file; its function is used or not (added after a seeded change that adopted later files declaring Main)
+        for (tag, decl) in [("main", "package Main\n\n".to_string()), ("sibling", format!("package {}\n\n", t)), ("no-line", String::new())] {
+            for (pos, fname) in [("later", "other.gom"), ("earlier", "aaa.gom")] {
+                for used in [false, true] {
+                    let mut p = Proj::new();
+                    p.file(d, "lib.gom", &[], "fn f(x: int32) -> int32 { x }\n");
+                    p.raw(d, fname, &format!("{}fn g(x: int32) -> int32 {{ x + 41 }}\n", decl));
+                    if tag == "sibling" {
+                        p.file(t, "lib.gom", &[], "fn h(x: int32) -> int32 { x }\n");
+                    }
+                    let call = if used { format!("{}::g(1)", d) } else { format!("{}::f(1)", d) };
+                    let imports: Vec<&str> = if tag == "sibling" { vec![d, t] } else { vec![d] };
+                    p.file("Main", "main.gom", &imports, &format!("fn main() {{\n    let _ = string_println(int32_to_string({}));\n    ()\n}}\n", call));
+                    let family: &'static str = match (tag, pos) {
+                        ("main", "later") => "package-declaration-mismatch-later-file-declares-main",
+                        ("main", _) => "package-declaration-mismatch-earlier-file-declares-main",
+                        ("sibling", "later") => "package-declaration-mismatch-later-file-declares-sibling",
+                        ("sibling", _) => "package-declaration-mismatch-earlier-file-declares-sibling",
+                        (_, "later") => "package-declaration-mismatch-later-file-without-package-line",
+                        _ => "package-declaration-mismatch-earlier-file-without-package-line",
+                    };
+                    out.push(Scenario { family, proj: p, expect: Expect::Reject });
+                }
+            }
+        }
     }
     // 13. cycles
     {
@@ -478,7 +505,7 @@ fn run(ctx: &mut Ctx) {
         return;
     }
     let scratch = capi::scratch_dir().clone();
-    let rounds = tier.pick(8u64, 160u64) / ctx.nshards as u64 + 1;
+    let rounds = tier.pickn(8u64, 160u64) / ctx.nshards as u64 + 1;
     for r in 0..rounds {
         let mut rng = Rng::keyed(seed, "c16", ctx.shard as u64, r);
         let scs = scenarios(&mut rng);
